@@ -294,6 +294,11 @@ func runCase(c Case) *ev.Verdict {
 			v.Class("mutant-statically-invalid")
 			v.Fail("C12/invalid-accepted:static:"+strings.ReplaceAll(why, " ", "-"), "%s %s is malformed (%s) and must be rejected; results %v held=%v", c.Class, c.Text, why, own, heldNow)
 		}
+	} else if !constructed && !rejected && reachesRIB && op.GetOp() == spb.AFTOperation_DELETE {
+		if _, static, _ := model.New("DEFAULT", hgen.NIs[1:], true).ExpectDelete(ni, op); static != "" {
+			v.Class("mutant-statically-invalid")
+			v.Fail("C12/invalid-accepted:static:delete:"+strings.ReplaceAll(static, " ", "-"), "%s %s is malformed (%s) and must be rejected; results %v", c.Class, c.Text, static, own)
+		}
 	} else if !constructed && rejected && reachesRIB && op.GetOp() != spb.AFTOperation_DELETE {
 		if val, _ := model.New("DEFAULT", hgen.NIs[1:], true).StaticAdd(ni, op, false); val == model.MustFail {
 			v.Class("mutant-statically-invalid")
